@@ -844,15 +844,20 @@ func changeTimelineTimescale(inSTL *m.SegmentTimelineType, oldTimescale, newTime
 	}
 	o := m.SegmentTimelineType{}
 	o.S = make([]*m.S, 0, len(inSTL.S))
+	var t uint64 // running start time in the old timescale: only the first S needs to carry @t
 	for _, s := range inSTL.S {
+		if s.T != nil {
+			t = *s.T
+		}
 		outS := m.S{
-			T: m.Ptr(round(*s.T)),
+			T: m.Ptr(round(t)),
 			N: nil,
 			D: round(s.D),
 			R: s.R,
 			K: nil,
 		}
 		o.S = append(o.S, &outS)
+		t += s.D * uint64(s.R+1)
 	}
 	return &o
 }
